@@ -61,6 +61,12 @@ def next_op(rng, runner, weights=None, allow=None, reuse=0.35) -> dict:
         c = runner.grow_pool(bad)
         return [{'op': 'damage', 'on': on, 'k': k, 'c': c},
                 {'op': 'addLoose', 'on': on, 'c': k, 'via': rng.choice(['bytes', 'stream', 'short']), 'short': rng.choice([1, 7, 5000])}]
+    if kind == 'plantDup':
+        # stray copies of an existing object in duplicates/ (what a writer leaves when it cannot replace a loose file)
+        have = sorted(k for k in rc.expected if (rc.name, k) not in runner.damaged)
+        if not have:
+            return {'op': 'addLoose', 'on': on, 'c': pick_content(rng, runner, rc, reuse), 'via': 'bytes'}
+        return {'op': 'plantDup', 'on': on, 'k': rng.choice(have), 'ids': [rng.getrandbits(128) for _ in range(rng.choice([1, 1, 2]))]}
     if kind == 'repackOne':
         packs = sorted(int(x) for x in rc.raw().pack_names_valid())
         if not packs:
